@@ -139,8 +139,21 @@ type obs struct {
 
 func (o obs) String() string { return fmt.Sprintf("%s<%s> out=%q", o.Class, o.Text, o.Out) }
 
-func runRef(src string) obs {
+func runRef(src string) obs { return runRefOpt(src, false) }
+
+// runRefOpt: with hostData the data of an error that reaches the host are part of the observation.
+func runRefOpt(src string, hostData bool) obs {
 	in := ri.New()
+	// the host's constructor for a condition with data, (*LEnv).ErrorCondition(name, values...): "an LError [of] the given
+	// condition type" built from "any number of *LVal values" -- the same thing the error builtin makes
+	in.DefBuiltin("host-raise", []string{"c", "&rest", "d"}, func(in *ri.Interp, a []*ri.Val, at *ri.Val) (*ri.Val, *ri.Err) {
+		if len(a) < 1 || a[0].K != ri.KSym {
+			return nil, in.Errf(at, "<unspecified>", "host-raise argument")
+		}
+		e := in.Errf(at, a[0].S, "")
+		e.Data = append([]*ri.Val(nil), a[1:]...)
+		return nil, e
+	})
 	in.DefBuiltin("host-panic", nil, func(in *ri.Interp, a []*ri.Val, at *ri.Val) (*ri.Val, *ri.Err) {
 		return nil, in.HostPanicErr(at)
 	})
@@ -168,13 +181,35 @@ func runRef(src string) obs {
 		return obs{Class: "unspecified", Text: "fuel"}
 	case e != nil && strings.HasPrefix(e.Cond, "<"):
 		return obs{Class: "unspecified", Text: e.Cond}
+	case e != nil && hostData:
+		ds := make([]string, len(e.Data))
+		for i, d := range e.Data {
+			ds[i] = d.String()
+		}
+		return obs{Class: "err", Text: hostErrText(e.Cond, ds), Out: in.Out.String()}
 	case e != nil:
 		return obs{Class: "err", Text: e.Cond, Out: in.Out.String()}
 	}
 	return obs{Class: "val", Text: v.String(), Out: in.Out.String()}
 }
 
-func runReal(src string) obs {
+func hostErrText(cond string, data []string) string {
+	return fmt.Sprintf("%s with %d data [%s]", cond, len(data), strings.Join(data, " | "))
+}
+
+func runReal(src string) obs { return runRealOpt(src, false) }
+
+func runRealOpt(src string, hostData bool) obs {
+	hr := el.Fn("host-raise", []string{"c", "&rest", "d"}, func(env *lisp.LEnv, args *lisp.LVal) *lisp.LVal {
+		if len(args.Cells) < 1 || args.Cells[0].Type != lisp.LSymbol {
+			return env.Errorf("host-raise: the condition is not a symbol")
+		}
+		vs := make([]interface{}, 0, len(args.Cells)-1)
+		for _, d := range args.Cells[1:] {
+			vs = append(vs, d)
+		}
+		return env.ErrorCondition(args.Cells[0].Str, vs...)
+	})
 	hp := el.Fn("host-panic", nil, func(env *lisp.LEnv, args *lisp.LVal) *lisp.LVal {
 		panic("injected host panic")
 	})
@@ -184,8 +219,10 @@ func runReal(src string) obs {
 	heh := el.Fn("host-error-handler", []string{"c", "&rest", "d"}, func(env *lisp.LEnv, args *lisp.LVal) *lisp.LVal {
 		return env.ErrorConditionf("host-error", "host handler failed")
 	})
-	env := el.MustEnv(el.Opts{Builtins: []lisp.LBuiltinDef{hp, hph, heh}})
-	o := env.Load(src)
+	env := el.MustEnv(el.Opts{Builtins: []lisp.LBuiltinDef{hp, hph, heh, hr}})
+	env.Err.Reset()
+	res := env.LoadString("test", src)
+	o := el.Observe(res, env.Err.String())
 	// whatever happened, nothing may be left behind: "rethrow ... is itself an error anywhere else"
 	rt := env.Runtime
 	if rt.CurrentCondition() != nil {
@@ -196,6 +233,13 @@ func runReal(src string) obs {
 	}
 	if after := env.Load("(rethrow)"); !after.IsErr || after.Cond != "error" {
 		return obs{Class: "dirty", Text: "a later (rethrow) outside any handler gives " + after.Full()}
+	}
+	if o.IsErr && hostData && res != nil {
+		ds := make([]string, len(res.Cells))
+		for i, d := range res.Cells {
+			ds[i] = el.NormFuns(d.String())
+		}
+		return obs{Class: "err", Text: hostErrText(o.Cond, ds), Out: el.NormFuns(o.Out)}
 	}
 	if o.IsErr {
 		return obs{Class: "err", Text: o.Cond, Out: el.NormFuns(o.Out)}
@@ -237,11 +281,12 @@ func classify(t *gen.Tree, ref, real obs) string {
 }
 
 func replay(v core.Violation) (bool, string) {
-	k, err := core.CaseOf[kase](v)
+	// the data family's cases also say whether the data of an error that reaches the host are compared
+	k, err := core.CaseOf[dataKase](v)
 	if err != nil {
 		return false, err.Error()
 	}
-	a, b := runRef(k.Src), runReal(k.Src)
+	a, b := runRefOpt(k.Src, k.HostData), runRealOpt(k.Src, k.HostData)
 	return !agree(a, b), fmt.Sprintf("src: %s\nreference: %s\nelps:      %s", k.Src, a, b)
 }
 
@@ -254,7 +299,7 @@ func run(r *core.Run) {
 	total := g.Total(size)
 	r.Bound("max_nodes", size)
 	r.Bound("terms", total)
-	r.Rule("every term of the condition grammar (13 leaves: value, marker, (error 'c1 ..) with plain / unquoted-symbol / unquoted-list data / a lone string containing percent signs / that string and a second datum, (error 'c2), a lisp error NAMED internal-panic, a host panic, a host panic and an ordinary error raised inside a source loaded with load-string, rethrow outside a handler, a builtin type error, an unbound symbol; 13 unary: ignore-errors and handler-bind with the catch-all before / after an explicit internal-panic binding, four bindings, and specifier condition / c1 / internal-panic / error / rethrowing handler under condition and under internal-panic / two bindings in both orders / a non-function handler; 8 binary: progn, 2-form ignore-errors, 2-form handler-bind bodies (catch-all and rethrowing), handler whose BODY is a term (bound to condition and to internal-panic), handler EXPRESSION that evaluates a term, list) up to the node bound. Non-trivial = an error or host panic is raised somewhere in the term; distinct by source text")
+	r.Rule("every term of the condition grammar (13 leaves: value, marker, (error 'c1 ..) with plain / unquoted-symbol / unquoted-list data / a lone string containing percent signs / that string and a second datum, (error 'c2), a lisp error NAMED internal-panic, a host panic, a host panic and an ordinary error raised inside a source loaded with load-string, rethrow outside a handler, a builtin type error, an unbound symbol; 13 unary: ignore-errors and handler-bind with the catch-all before / after an explicit internal-panic binding, four bindings, and specifier condition / c1 / internal-panic / error / rethrowing handler under condition and under internal-panic / two bindings in both orders / a non-function handler; 8 binary: progn, 2-form ignore-errors, 2-form handler-bind bodies (catch-all and rethrowing), handler whose BODY is a term (bound to condition and to internal-panic), handler EXPRESSION that evaluates a term, list) up to the node bound. Non-trivial = an error or host panic is raised somewhere in the term; distinct by source text. Error-data family: every tuple of data (up to a length over 15 value kinds: literal and computed empty list, false, 0, empty string / vector / map, a list holding the empty list, int, float, string, symbol, keyword, true, non-empty list; longer tuples over the 6 core kinds) raised through every entry point that builds a condition with data (error, (apply error ..), the host's ErrorCondition, error inside a loaded source) must reach every observer (catch-all &rest handler, by-name handler with one parameter per datum, the docs' (&rest e) handler, an outer handler after rethrow and after the documented (apply error c d) re-raise, and the host after no / an unmatched / a rethrowing handler) with the same length, order and values; non-trivial = at least one datum")
 	r.Assume("function values print as #<fun>; error messages are not compared, condition names are")
 	core.ParallelRange(r, total, nil, func(_ struct{}, i int64) {
 		t := g.At(size, i)
@@ -288,6 +333,7 @@ func run(r *core.Run) {
 	})
 	r.AddStates(total)
 	handlerSequences(r)
+	errorData(r)
 }
 
 // Handler-action sequences: what a handler does while the error it handles is current.  The statement says rethrow
